@@ -76,9 +76,11 @@ class Interp:
         self.inlined = set()
 
     # ------------------------------------------------------------------ utilities
-    def oblige(self, label, state, goal, node=None, note=""):
-        if goal is True:
+    def oblige(self, label, state, goal, node=None, note="", structural=False):
+        if goal is True and not structural:
             return
+        if goal is True:
+            goal = z3.BoolVal(True)
         fn = ".".join(self.cur[-1]) if self.cur else "?"
         ob = Obligation(f"{fn}/{label}", state.pc, goal,
                         line=getattr(node, "lineno", None), note=note)
@@ -701,7 +703,12 @@ class Interp:
                 return BoundMethod(obj, attr)
             return BoundMethod(obj, attr)
         if isinstance(obj, ModuleV):
-            return ModuleV(obj.dotted + "." + attr)
+            dotted = obj.dotted + "." + attr
+            dotted = dotted.replace("np.", "numpy.", 1) if dotted.startswith("np.") else dotted
+            h = self.ext.get(("const", dotted))
+            if h:
+                return h(self, state)
+            return ModuleV(dotted)
         if obj is None:
             raise PyRaise("AttributeError", f"'NoneType' object has no attribute '{attr}'")
         if isinstance(obj, (int, float)) or (is_sym(obj) and not isinstance(obj, Ref)):
@@ -814,6 +821,8 @@ class Interp:
             t = self.truth(v, st)
             return (not t) if isinstance(t, bool) else z3.Not(t)
         if isinstance(e.op, ast.USub):
+            if isinstance(v, Opaque) and v.tag == "inf":
+                return Opaque("inf", sign=-v.info["sign"])
             if isinstance(v, Ref):
                 a = st.arr(v)
                 return st.new_arr(Arr(a.shape, lambda *i: -a.at(*i), a.sort, prov=("scale", -1, a)))
